@@ -38,6 +38,12 @@ pub struct FCtl {
 	pub closed: bool,
 	/// `close` was entered
 	pub close_entered: bool,
+	/// `close` returns `Err` (after having closed)
+	pub close_fail: bool,
+	/// the next `send_ping` fails with this text
+	pub ping_fail: Option<String>,
+	/// number of `send_ping` calls
+	pub pings: usize,
 }
 
 async fn wait_open(g: &mut watch::Receiver<bool>) {
@@ -66,11 +72,21 @@ impl TransportSenderT for FSender {
 		c.wire.push(msg);
 		Ok(())
 	}
+	async fn send_ping(&mut self) -> Result<(), MockErr> {
+		let mut c = self.ctl.lock().unwrap();
+		c.pings += 1;
+		if let Some(e) = c.ping_fail.take() {
+			c.send_failed = true;
+			return Err(MockErr(e));
+		}
+		Ok(())
+	}
 	async fn close(&mut self) -> Result<(), MockErr> {
 		self.ctl.lock().unwrap().close_entered = true;
 		wait_open(&mut self.close_gate).await;
-		self.ctl.lock().unwrap().closed = true;
-		Ok(())
+		let mut c = self.ctl.lock().unwrap();
+		c.closed = true;
+		if c.close_fail { Err(MockErr("close failed".into())) } else { Ok(()) }
 	}
 }
 
@@ -100,6 +116,10 @@ enum FSlot {
 	Subscribe(JoinHandle<Result<Stream, Error>>),
 	Batch(JoinHandle<Result<Comp, Error>>),
 	Notify(JoinHandle<Result<(), Error>>),
+	/// `subscribe_to_method`
+	Reg(JoinHandle<Result<Stream, Error>>),
+	/// the application awaits `on_disconnect()`
+	Watch(JoinHandle<Error>),
 	Stream(Stream),
 	/// inside `Subscription::unsubscribe()` (resolves when the stream has ended)
 	Unsub(JoinHandle<()>),
@@ -113,7 +133,10 @@ pub struct FObs {
 	/// (ticket, canonical completion); a notification that was queued renders as `sent`
 	pub comps: Vec<(usize, String)>,
 	pub unres: Option<Vec<usize>>,
-	pub streams: Vec<(usize, bool)>,
+	/// `on_disconnect()` waiters still pending (reported by `end`)
+	pub watching: Vec<usize>,
+	/// (ticket, ended, items that were still buffered — `None` for a stream inside `unsubscribe()`)
+	pub streams: Vec<(usize, bool, Option<usize>)>,
 	pub conn: bool,
 	pub disc: String,
 	pub tclosed: bool,
@@ -134,8 +157,16 @@ impl FObs {
 			let l: Vec<String> = u.iter().map(|k| k.to_string()).collect();
 			parts.push(format!("unres={}", if l.is_empty() { "-".to_string() } else { l.join(",") }));
 		}
-		for (k, ended) in &self.streams {
-			parts.push(format!("s{k}={}", if *ended { "end" } else { "open" }));
+		if !self.watching.is_empty() {
+			let l: Vec<String> = self.watching.iter().map(|k| k.to_string()).collect();
+			parts.push(format!("wp={}", l.join(",")));
+		}
+		for (k, ended, n) in &self.streams {
+			let st = if *ended { "end" } else { "open" };
+			parts.push(match n {
+				Some(n) => format!("s{k}={st}/{n}"),
+				None => format!("s{k}={st}"),
+			});
 		}
 		for p in &self.panics {
 			parts.push(format!("PANIC:{}", hexs(p)));
@@ -173,7 +204,8 @@ pub fn take_panics() -> Vec<String> {
 }
 
 pub struct FaultSession {
-	pub client: Arc<Client>,
+	/// `None` once the application has dropped the client
+	pub client: Option<Arc<Client>>,
 	pub ctl: Arc<Mutex<FCtl>>,
 	send_gate: watch::Sender<bool>,
 	close_gate: watch::Sender<bool>,
@@ -203,9 +235,22 @@ fn sub_id_repr(s: &jsonrpsee_types::SubscriptionId<'_>) -> String {
 	}
 }
 
+/// client configuration beyond id kind and capacities
+#[derive(Clone, Debug)]
+pub struct FOpts {
+	pub request_timeout: Duration,
+	/// WS pings: (ping interval, inactive limit, max failures) in milliseconds
+	pub ping: Option<(u64, u64, usize)>,
+}
+
 impl FaultSession {
 	/// must be called inside the runtime
 	pub fn new(str_ids: bool, cap: usize, fcap: usize, request_timeout: Duration) -> FaultSession {
+		Self::with_opts(str_ids, cap, fcap, FOpts { request_timeout, ping: None })
+	}
+
+	pub fn with_opts(str_ids: bool, cap: usize, fcap: usize, opts: FOpts) -> FaultSession {
+		let request_timeout = opts.request_timeout;
 		let ctl = Arc::new(Mutex::new(FCtl::default()));
 		let (send_gate, sg) = watch::channel(true);
 		let (close_gate, cg) = watch::channel(true);
@@ -213,14 +258,22 @@ impl FaultSession {
 		let (to_client, rx) = mpsc::unbounded_channel();
 		let sender = FSender { ctl: ctl.clone(), send_gate: sg, close_gate: cg };
 		let receiver = FReceiver { rx, gate: rg };
-		let client: Client = ClientBuilder::default()
+		let mut b = ClientBuilder::default()
 			.request_timeout(request_timeout)
 			.max_concurrent_requests(fcap)
 			.max_buffer_capacity_per_subscription(cap)
-			.id_format(if str_ids { IdKind::String } else { IdKind::Number })
-			.build_with_tokio(sender, receiver);
+			.id_format(if str_ids { IdKind::String } else { IdKind::Number });
+		if let Some((iv, inact, maxf)) = opts.ping {
+			b = b.enable_ws_ping(
+				jsonrpsee_core::client::async_client::PingConfig::new()
+					.ping_interval(Duration::from_millis(iv))
+					.inactive_limit(Duration::from_millis(inact))
+					.max_failures(maxf),
+			);
+		}
+		let client: Client = b.build_with_tokio(sender, receiver);
 		FaultSession {
-			client: Arc::new(client),
+			client: Some(Arc::new(client)),
 			ctl,
 			send_gate,
 			close_gate,
@@ -250,7 +303,7 @@ impl FaultSession {
 	}
 
 	pub fn call(&mut self) {
-		let c = self.client.clone();
+		let Some(c) = self.client.clone() else { return };
 		self.slots.push(FSlot::Call(tokio::spawn(async move { c.request::<Raw, _>("m", ArrayParams::new()).await })));
 	}
 
@@ -269,6 +322,8 @@ impl FaultSession {
 				FSlot::Subscribe(h) => h.is_finished(),
 				FSlot::Batch(h) => h.is_finished(),
 				FSlot::Notify(h) => h.is_finished(),
+				FSlot::Reg(h) => h.is_finished(),
+				FSlot::Watch(h) => h.is_finished(),
 				_ => false,
 			};
 			if !finished {
@@ -308,6 +363,18 @@ impl FaultSession {
 					Ok(Err(e)) => out.push((i, classify_err(&e).render())),
 					Err(e) => joinerr(e),
 				},
+				FSlot::Reg(h) => match h.await {
+					Ok(Ok(st)) => {
+						out.push((i, Comp::Reg.render()));
+						self.slots[i] = FSlot::Stream(st);
+					}
+					Ok(Err(e)) => out.push((i, classify_err(&e).render())),
+					Err(e) => joinerr(e),
+				},
+				FSlot::Watch(h) => match h.await {
+					Ok(e) => out.push((i, classify_err(&e).render())),
+					Err(e) => joinerr(e),
+				},
 				_ => {}
 			}
 		}
@@ -316,7 +383,7 @@ impl FaultSession {
 
 	/// start a front-end operation without waiting for quiescence (real-time tests)
 	pub fn exec_nobarrier(&mut self, line: &str) {
-		let c = self.client.clone();
+		let Some(c) = self.client.clone() else { return };
 		match line {
 			"ct call" => self.call(),
 			"ct subscribe" => self.slots.push(FSlot::Subscribe(tokio::spawn(async move {
@@ -340,9 +407,12 @@ impl FaultSession {
 	}
 
 	pub fn disc_repr(&self) -> String {
-		match self.client.on_disconnect().now_or_never() {
-			None => "pending".into(),
-			Some(e) => classify_err(&e).render(),
+		match &self.client {
+			None => "dropped".into(),
+			Some(c) => match c.on_disconnect().now_or_never() {
+				None => "pending".into(),
+				Some(e) => classify_err(&e).render(),
+			},
 		}
 	}
 
@@ -351,7 +421,7 @@ impl FaultSession {
 		let mut panics = take_panics();
 		obs.wires.extend(self.new_wires());
 		obs.comps.extend(self.harvest(&mut panics).await);
-		obs.conn = self.client.is_connected();
+		obs.conn = self.client.as_ref().map(|c| c.is_connected()).unwrap_or(false);
 		obs.disc = self.disc_repr();
 		obs.tclosed = self.ctl.lock().unwrap().closed;
 		obs.panics.extend(panics);
@@ -361,32 +431,62 @@ impl FaultSession {
 		self.slots
 			.iter()
 			.enumerate()
-			.filter(|(_, s)| matches!(s, FSlot::Call(_) | FSlot::Subscribe(_) | FSlot::Batch(_) | FSlot::Notify(_)))
+			.filter(|(_, s)| matches!(s, FSlot::Call(_) | FSlot::Subscribe(_) | FSlot::Batch(_) | FSlot::Notify(_) | FSlot::Reg(_)))
 			.map(|(i, _)| i)
 			.collect()
 	}
 
-	/// drain every stream: `(ticket, ended)`
-	fn streams(&mut self) -> Vec<(usize, bool)> {
+	/// tickets of `on_disconnect()` waiters that have not resolved
+	pub fn watching(&self) -> Vec<usize> {
+		self.slots.iter().enumerate().filter(|(_, s)| matches!(s, FSlot::Watch(_))).map(|(i, _)| i).collect()
+	}
+
+	/// abort every pending front-end future (their `Arc<Client>` clones go with them)
+	fn abort_pending(&mut self) {
+		for s in self.slots.iter_mut() {
+			match s {
+				FSlot::Call(h) => h.abort(),
+				FSlot::Subscribe(h) => h.abort(),
+				FSlot::Batch(h) => h.abort(),
+				FSlot::Notify(h) => h.abort(),
+				FSlot::Reg(h) => h.abort(),
+				FSlot::Watch(h) => h.abort(),
+				_ => continue,
+			}
+			*s = FSlot::Done;
+		}
+	}
+
+	/// drain every stream: `(ticket, ended, buffered items that came out)`
+	fn streams(&mut self) -> Vec<(usize, bool, Option<usize>)> {
 		let mut out = vec![];
 		for (i, s) in self.slots.iter_mut().enumerate() {
 			if let FSlot::Stream(st) = s {
+				let mut n = 0;
 				let ended = loop {
 					match st.next().now_or_never() {
-						Some(Some(_)) => continue,
+						Some(Some(_)) => n += 1,
 						Some(None) => break true,
 						None => break false,
 					}
 				};
-				out.push((i, ended));
+				out.push((i, ended, Some(n)));
 			} else if let FSlot::Unsub(h) = s {
-				out.push((i, h.is_finished()));
+				out.push((i, h.is_finished(), None));
 			}
 		}
 		out
 	}
 
 	pub async fn exec(&mut self, line: &str) -> FObs {
+		let mut o = self.exec_inner(line).await;
+		if self.unmodelled && o.literal.as_deref() == Some("bad-op") {
+			o.literal = Some("#skip bad-op".into());
+		}
+		o
+	}
+
+	async fn exec_inner(&mut self, line: &str) -> FObs {
 		let w: Vec<&str> = line.split(' ').filter(|s| !s.is_empty()).collect();
 		let mut obs = FObs::default();
 		let bad = |mut o: FObs| {
@@ -399,11 +499,14 @@ impl FaultSession {
 		let txt = |s: &str| String::from_utf8(unhex(s)).ok();
 		match (w[1], &w[2..]) {
 			("call", []) => {
+				if self.client.is_none() {
+					return bad(obs);
+				}
 				self.call();
 				self.settle(&mut obs).await;
 			}
 			("subscribe", []) => {
-				let c = self.client.clone();
+				let Some(c) = self.client.clone() else { return bad(obs) };
 				self.slots.push(FSlot::Subscribe(tokio::spawn(async move {
 					c.subscribe::<Raw, _>("sub", ArrayParams::new(), "unsub").await
 				})));
@@ -414,7 +517,7 @@ impl FaultSession {
 				if n == 0 || n > 64 {
 					return bad(obs);
 				}
-				let c = self.client.clone();
+				let Some(c) = self.client.clone() else { return bad(obs) };
 				self.slots.push(FSlot::Batch(tokio::spawn(async move {
 					let mut b = BatchRequestBuilder::new();
 					for _ in 0..n {
@@ -426,8 +529,51 @@ impl FaultSession {
 				self.settle(&mut obs).await;
 			}
 			("notify", []) => {
-				let c = self.client.clone();
+				let Some(c) = self.client.clone() else { return bad(obs) };
 				self.slots.push(FSlot::Notify(tokio::spawn(async move { c.notification("m", ArrayParams::new()).await })));
+				self.settle(&mut obs).await;
+			}
+			("regnotif", [m]) => {
+				// `subscribe_to_method`
+				let Some(method) = txt(m) else { return bad(obs) };
+				let Some(c) = self.client.clone() else { return bad(obs) };
+				self.slots.push(FSlot::Reg(tokio::spawn(async move { c.subscribe_to_method::<Raw>(&method).await })));
+				self.settle(&mut obs).await;
+			}
+			("ondisc", []) => {
+				// the application awaits `on_disconnect()` (before / during / after the failure)
+				let Some(c) = self.client.clone() else { return bad(obs) };
+				self.slots.push(FSlot::Watch(tokio::spawn(async move { c.on_disconnect().await })));
+				self.settle(&mut obs).await;
+			}
+			("pong", []) => {
+				self.inject(Ok(ReceivedMessage::Pong));
+				self.settle(&mut obs).await;
+			}
+			("dropclient", []) => {
+				// the application lets go of the client and of every future it was awaiting
+				self.unmodelled = true;
+				self.abort_pending();
+				self.client = None;
+				self.settle(&mut obs).await;
+			}
+			("advance", [ms]) => {
+				// let the (paused) clock run: ping timers fire
+				let Ok(ms) = ms.parse::<u64>() else { return bad(obs) };
+				self.unmodelled = true;
+				tokio::time::sleep(Duration::from_millis(ms)).await;
+				self.settle(&mut obs).await;
+			}
+			("fault", ["close_err"]) => {
+				self.ctl.lock().unwrap().close_fail = true;
+				self.settle(&mut obs).await;
+			}
+			("fault", ["ping_err", k]) => {
+				if k.parse::<u64>().is_err() {
+					return bad(obs);
+				}
+				self.unmodelled = true;
+				self.ctl.lock().unwrap().ping_fail = Some(format!("p{k}"));
 				self.settle(&mut obs).await;
 			}
 			("drop", [k]) => {
@@ -456,8 +602,11 @@ impl FaultSession {
 				self.inject(Ok(ReceivedMessage::Text(t)));
 				self.settle(&mut obs).await;
 			}
-			("deliverbytes", [h]) => {
-				self.unmodelled = true;
+			("deliverbytes", [h]) | ("fault", ["garbageb", h]) => {
+				// a binary frame: the same handler as text; outside the model only if it is not UTF-8
+				if String::from_utf8(unhex(h)).is_err() {
+					self.unmodelled = true;
+				}
 				self.inject(Ok(ReceivedMessage::Bytes(unhex(h))));
 				self.settle(&mut obs).await;
 			}
@@ -511,6 +660,7 @@ impl FaultSession {
 					self.settle(&mut obs).await;
 				}
 				obs.unres = Some(self.unresolved());
+				obs.watching = self.watching();
 				obs.streams = self.streams();
 			}
 			_ => return bad(obs),
@@ -522,18 +672,42 @@ impl FaultSession {
 	}
 }
 
-/// `case <n> ctasks <num|str> <cap>`
-pub fn parse_ct_header(line: &str) -> Option<(bool, usize)> {
+/// `case <n> ctasks <num|str> <cap> [<opts>]` with opts = comma-separated `t=<secs>` (request timeout,
+/// default 3600), `ping=<interval ms>/<inactive ms>/<max failures>`, `fcap=<n>` (front channel)
+pub fn parse_ct_header_opts(line: &str) -> Option<(bool, usize, usize, FOpts)> {
 	let w: Vec<&str> = line.split(' ').filter(|s| !s.is_empty()).collect();
-	if w.len() == 5 && w[0] == "case" && w[2] == "ctasks" && (w[3] == "num" || w[3] == "str") {
+	if (w.len() == 5 || w.len() == 6) && w[0] == "case" && w[2] == "ctasks" && (w[3] == "num" || w[3] == "str") {
 		let cap: usize = w[4].parse().ok()?;
 		if cap == 0 {
 			return None;
 		}
-		Some((w[3] == "str", cap))
+		let mut opts = FOpts { request_timeout: Duration::from_secs(3600), ping: None };
+		let mut fcap = FCAP;
+		if let Some(o) = w.get(5) {
+			for kv in o.split(',') {
+				let (k, v) = kv.split_once('=')?;
+				match k {
+					"t" => opts.request_timeout = Duration::from_secs(v.parse().ok()?),
+					"fcap" => fcap = v.parse().ok().filter(|f| *f > 0)?,
+					"ping" => {
+						let p: Vec<&str> = v.split('/').collect();
+						if p.len() != 3 {
+							return None;
+						}
+						opts.ping = Some((p[0].parse().ok()?, p[1].parse().ok()?, p[2].parse().ok().filter(|m| *m > 0)?));
+					}
+					_ => return None,
+				}
+			}
+		}
+		Some((w[3] == "str", cap, fcap, opts))
 	} else {
 		None
 	}
+}
+
+pub fn parse_ct_header(line: &str) -> Option<(bool, usize)> {
+	parse_ct_header_opts(line).map(|(s, c, _, _)| (s, c))
 }
 
 /// capacity of the front channel in correspondence cases: never full, so no caller blocks on it
